@@ -119,6 +119,19 @@ def strategy(tier):
             for a in model["assigns"]:
                 if a["name"] == X.deriv_name(s):
                     a["expr"] = ["bin", "-", a["expr"], ["bin", "*", ["num", "0.25"], ["call", "Mod", A, B_]]]
+        elif draw(st.integers(0, 5)) == 0:
+            # nested piecewise-constant terms of the own state: floor of floor, floor of Mod, Mod of floor
+            s = draw(st.sampled_from(model["states"]))["name"]
+            v = ["var", s]
+            inner = draw(st.sampled_from([["call", "floor", ["bin", "*", v, ["num", "0.5"]]], ["call", "Mod", v, ["num", "3"]], ["bin", "*", v, ["call", "floor", ["bin", "/", v, ["num", "2"]]]]]))
+            outer = draw(st.sampled_from([
+                ["call", "floor", ["bin", "+", ["bin", "*", inner, ["num", "0.5"]], ["num", "0.25"]]],
+                ["call", "Mod", ["bin", "+", inner, v], ["num", "2.5"]],
+                ["bin", "*", ["call", "floor", ["bin", "*", inner, ["num", "1.5"]]], v],
+            ]))
+            for a in model["assigns"]:
+                if a["name"] == X.deriv_name(s):
+                    a["expr"] = ["bin", "-", a["expr"], ["bin", "*", ["num", "0.25"], outer]]
         need = [X.deriv_name(s["name"]) for s in model["states"]]
         pts = G.draw_points(draw, model, 3, need)
         delta = draw_delta(draw, model, pts)
